@@ -1028,8 +1028,80 @@ fn c13_case(ctx: &Ctx, ci: u64, cfgt: (TC, CP, MC, bool, u8), st: &mut Stats) ->
     (conv, samples)
 }
 
+/// Environment part of C13 (child processes only: what it looks for ends the process): every kind of conversion on
+/// a thread whose stack is 128 KiB (the default of musl's and of many embedders' secondary threads), and
+/// conversions made while a thread is being torn down (from the destructor of a thread-local).
+fn c13_env(ctx: &Ctx, sel: &ChildSel) {
+    use crate::mon_cold::{run_op, OPS};
+    let mut n = 0u64;
+    let variants: u64 = ctx.pick(6, 24);
+    for (oi, op) in OPS.iter().enumerate() {
+        for v in 0..variants {
+            let ci = oi as u64 * 100 + v;
+            if !sel.wants(ci) {
+                continue;
+            }
+            sel.announce(ci, &format!("{op} (variant {v}) on a thread with a 128 KiB stack"));
+            let op2 = op.to_string();
+            let variant = ctx.seed * 1000 + v;
+            let h = std::thread::Builder::new().stack_size(128 * 1024).spawn(move || run_op(&op2, variant, v as usize).len());
+            match h.map(|h| h.join()) {
+                Ok(Ok(_)) => n += 1,
+                Ok(Err(_)) => ev::violation(format!("C13|panic|small-stack|{op}"), format!("{op} panicked on a 128 KiB-stack thread"), J::obj().set("kind", "c13-env").set("op", *op).set("variant", variant)),
+                Err(e) => ev::note(format!("could not spawn a small-stack thread: {e}")),
+            }
+        }
+    }
+    // conversions during thread teardown, with the harness's thread-local registered before / after the thread's first conversion
+    struct AtExit(u64);
+    impl Drop for AtExit {
+        fn drop(&mut self) {
+            // several variants, so that every primaries / transfer / matrix family is used during teardown
+            for v in 0..8 {
+                for op in OPS {
+                    let _ = std::hint::black_box(run_op(op, self.0 + v, 5));
+                }
+            }
+        }
+    }
+    thread_local! { static AT_EXIT: std::cell::RefCell<Option<AtExit>> = const { std::cell::RefCell::new(None) }; }
+    for order in 0..2u64 {
+        let ci = 5000 + order;
+        if !sel.wants(ci) {
+            continue;
+        }
+        sel.announce(ci, &format!("conversions from a thread-local destructor ({})", if order == 0 { "registered before the thread's first conversion" } else { "registered after it" }));
+        let variant = ctx.seed * 1000 + order;
+        let r = std::thread::spawn(move || {
+            if order == 0 {
+                AT_EXIT.with(|c| *c.borrow_mut() = Some(AtExit(variant)));
+            }
+            for v in 0..8 {
+                for op in OPS {
+                    let _ = std::hint::black_box(run_op(op, variant + v, 3));
+                }
+            }
+            if order == 1 {
+                AT_EXIT.with(|c| *c.borrow_mut() = Some(AtExit(variant)));
+            }
+        })
+        .join();
+        match r {
+            Ok(()) => n += 1,
+            Err(_) => ev::violation("C13|panic|thread-teardown", "a conversion panicked around thread teardown".to_string(), J::obj().set("kind", "c13-env").set("order", order)),
+        }
+    }
+    ev::observe("environment_cases_completed", n);
+    ev::add_evals(n * 5);
+    ev::add_nontrivial(n);
+    ev::rule("environment part: every conversion kind on a 128 KiB-stack thread, and from a thread-local destructor during thread teardown; run in child processes so that an abort is attributed to its case");
+}
+
 pub fn c13(ctx: &Ctx) {
     let sel = ChildSel::from_ctx(ctx);
+    if ctx.arg("part") == Some("env") {
+        return c13_env(ctx, &sel);
+    }
     let cfgs = c13_configs();
     let glob = Mutex::new((Stats::default(), 0u64, 0u64, 0u64));
     let lite = ctx.flag("lite");
